@@ -128,13 +128,13 @@ func triFamily(c *inst, raw json.RawMessage, full bool, sum *core.Summary) {
 				if nrhs > c.R {
 					continue
 				}
-				for _, tr := range []blas.Transpose{blas.NoTrans, blas.Trans} {
+				for _, tr := range []blas.Transpose{blas.NoTrans, blas.Trans, blas.ConjTrans} {
 					for _, routine := range []string{"Dtrtrs", "lapack64.Trtrs"} {
 						ldb := maxi(1, nrhs) + lda - maxi(1, n)
 						if routine == "lapack64.Trtrs" && (lda != maxi(1, n) || nrhs != c.R) {
 							continue
 						}
-						k.where = desc(routine, "upper", up, "trans", tr == blas.Trans, "unit", c.Unit, "n", n, "nrhs", nrhs, "lda", lda, "ldb", ldb)
+						k.where = desc(routine, "upper", up, "trans", tr != blas.NoTrans, "unit", c.Unit, "n", n, "nrhs", nrhs, "lda", lda, "ldb", ldb)
 						a := buildTriangle(c.T, 1, n, lda, up, c.Unit, 1)
 						a0 := cloneF(a)
 						// the array holds T (upper) or T^T (lower): op(array) = T  <=>  up == NoTrans
